@@ -287,6 +287,7 @@ def run(ctx: Ctx):
     _slice_arithmetic(ctx, cbs, gpb)
     _pad_arithmetic(ctx, pv, gpb)
     _mask_broadcast_before_counting(ctx)
+    _pad_and_chunk_value_tables(ctx)
     # ---- S7 handler / raiser agreement around the validation helpers -----------------------------------------------
     from rules.excmatch import ArgcheckRaises, mismatched_handlers
     acr = ArgcheckRaises(pkg)
@@ -732,6 +733,112 @@ def _mask_broadcast_before_counting(ctx: Ctx):
            f"`{u(sums[0])}` counts the mask before it is expanded to x's first two dimensions (the selection uses the expanded "
            f"mask): for a mask of shape (1, N) or (T, 1) - which the docstring allows - the lengths have the wrong shape / value "
            f"and masked_scatter moves elements into other rows", rel, sums[0].lineno)
+
+
+def _pad_and_chunk_value_tables(ctx: Ctx):
+    """S9: `pad_variable` and `chunk_by_slices` interpreted COMPLETELY over exact values (sa/interp.py + sa/teval.py, the buffer kernel
+    `_get_padding_buffers` included; nothing is run) and compared, sequence by sequence, with padding written out by hand:
+
+        position p of sequence n (length L):  x[n, p] for 0 <= p < L;  otherwise  constant -> value,  replicate -> x[n, clamp(p, 0, L - 1)],
+        reflect -> x[n, -p] on the left and x[n, 2 (L - 1) - p] on the right
+
+    pad_variable: result row n is positions -left .. L + right - 1, the rest of the row is `value`; chunk_by_slices: row n is positions
+    start .. end - 1 (nothing if end <= start) and the reported length is max(end - start, 0). Grid: the three modes; feature shapes
+    (), (2,) and (2, 2) (the trailing shape of the result must be that of the input); mixed lengths; slices before, across, inside, after
+    and beyond the sequence, empty and reversed ones; `lens` left out. How the masks, buffers and scatters are spelled does not matter."""
+    import numpy as np
+    from sa.interp import Interp
+    from sa.inteval import NotEvaluable
+    from sa.teval import frac_array
+    col, pkg = ctx.col, ctx.pkg
+    rel = pkg.module(MOD).relname
+    cbs = pkg.func(f"{MOD}::chunk_by_slices")
+    pv = pkg.func(f"{MOD}::pad_variable")
+    helpers = {st.name: st for st in pkg.module(MOD).tree.body if isinstance(st, ast.FunctionDef) and st.name.startswith("_")}
+
+    def lookup(c):
+        return helpers.get(call_name(c))
+    VALUE, T = -1, 5
+
+    def position(v, L, p, mode, fill):
+        if 0 <= p < L:
+            return v[p]
+        if mode == "constant":
+            return fill
+        if mode == "replicate":
+            return v[min(max(p, 0), L - 1)]
+        q = -p if p < 0 else 2 * (L - 1) - p
+        return v[q] if 0 <= q < L else None  # (outside what reflection defines)
+
+    def run(f, env):
+        it = Interp(lookup=lookup, tensors=True)
+        e = {a_.arg: None for a_ in f.node.args.args}
+        for a_, d_ in zip(reversed(f.node.args.args), reversed(f.node.args.defaults)):
+            if isinstance(d_, ast.Constant):
+                e[a_.arg] = d_.value
+        e.update(env)
+        return it.run(f.node, e)
+    all_slices = [(s_, e_) for s_ in range(-3, 8) for e_ in range(-3, 9)]
+    bad = {"chunk": None, "pad": None}
+    rows = {"chunk": 0, "pad": 0}
+    try:
+        for mode in ("constant", "replicate", "reflect"):
+            for rest in ((), (2,), (2, 2)):
+                fill = np.full(rest, VALUE).tolist()
+                for lens, give_lens in (([5, 3, 4, 2], True), ([5, 5, 5, 5], False)):
+                    N = len(lens)
+                    x = np.arange(N * T * int(np.prod(rest or (1,)))).reshape((N, T) + rest)
+                    # ---- chunk_by_slices
+                    for k in range(0, len(all_slices), 4 if rest == () else 11):
+                        sl = [all_slices[(k + 23 * j) % len(all_slices)] for j in range(N)]
+                        if mode == "reflect":  # (reflection is defined for pads smaller than the sequence)
+                            sl = [(max(s_, -(L - 1)), min(e_, 2 * L - 1)) for (s_, e_), L in zip(sl, lens)]
+                        kind, got = run(cbs, dict(x=frac_array(x.tolist()), slices=frac_array([list(p_) for p_ in sl]),
+                                                  lens=frac_array(lens) if give_lens else None, mode=mode, value=VALUE))
+                        rows["chunk"] += 1
+                        if kind != "return" or not isinstance(got, tuple) or len(got) != 2:
+                            bad["chunk"] = bad["chunk"] or (mode, rest, lens, sl, f"{kind}: {got}", None)
+                            continue
+                        ch, cl = got
+                        for i, (s_, e_) in enumerate(sl):
+                            want = [position(x[i].tolist(), lens[i], p_, mode, fill) for p_ in range(s_, e_)]
+                            ok = int(cl[i]) == max(e_ - s_, 0) and tuple(ch.shape[2:]) == rest and ch.shape[0] == N and ch.shape[1] >= len(want) \
+                                and all(w_ is None or g_ == w_ for g_, w_ in zip(np.asarray(ch[i][:len(want)]).tolist(), want))
+                            if not ok and bad["chunk"] is None:
+                                bad["chunk"] = (mode, rest, lens[i], (s_, e_), (tuple(ch.shape), int(cl[i]), np.asarray(ch[i]).tolist()), want)
+                    # ---- pad_variable
+                    for k in range(0, 16, 1 if rest == () else 5):
+                        pads = [[(k + 2 * j) % 4 for j in range(N)], [(k // 4 + 3 * j) % 4 for j in range(N)]]
+                        if mode == "reflect":
+                            pads = [[min(p_, L - 1) for p_, L in zip(row_, lens)] for row_ in pads]
+                        kind, got = run(pv, dict(x=frac_array(x.tolist()), lens=frac_array(lens), pad=frac_array(pads), mode=mode, value=VALUE))
+                        rows["pad"] += 1
+                        if kind != "return" or not hasattr(got, "shape"):
+                            bad["pad"] = bad["pad"] or (mode, rest, lens, pads, f"{kind}: {got}", None)
+                            continue
+                        for i in range(N):
+                            want = [position(x[i].tolist(), lens[i], p_, mode, fill) for p_ in range(-pads[0][i], lens[i] + pads[1][i])]
+                            row_ = np.asarray(got[i]).tolist() if got.shape[0] == N else []
+                            ok = tuple(got.shape[2:]) == rest and len(row_) >= len(want) and all(g_ == w_ for g_, w_ in zip(row_, want)) \
+                                and all(g_ == fill for g_ in row_[len(want):])
+                            if not ok and bad["pad"] is None:
+                                bad["pad"] = (mode, rest, lens[i], (pads[0][i], pads[1][i]), (tuple(got.shape), row_), want)
+    except NotEvaluable as e:
+        col.undecided(f"{rel}: pad_variable / chunk_by_slices are outside the interpreted fragment ({e}); their values are not decided")
+        return
+    col.floor("chunk_value_table_rows", rows["chunk"], 100)
+    col.floor("pad_value_table_rows", rows["pad"], 50)
+
+    def _s(v):
+        return str(v)[:160]
+    b = bad["chunk"]
+    col.ob("G12", "S9", f"{rel}::chunk_by_slices::value-table", b is None,
+           (f"mode={b[0]!r}, feature shape {b[1]}, length {b[2]}, slice {b[3]}: chunk_by_slices gives (shape, length, row) = {_s(b[4])}; padding the "
+            f"sequence by hand and cutting the slice gives {_s(b[5])} with the feature shape of the input") if b else "", rel, cbs.line, sample=dict(rows=rows["chunk"]))
+    b = bad["pad"]
+    col.ob("G12", "S9", f"{rel}::pad_variable::value-table", b is None,
+           (f"mode={b[0]!r}, feature shape {b[1]}, length {b[2]}, (left, right) pad {b[3]}: pad_variable gives (shape, row) = {_s(b[4])}; padding "
+            f"the sequence by hand gives {_s(b[5])} followed by the fill value") if b else "", rel, pv.line, sample=dict(rows=rows["pad"]))
 
 
 def _mutants():
